@@ -209,10 +209,24 @@ def _eq(x, y):
     return torch.equal(x, y)
 
 
-def check_repeat(cfg, queries, size, levy, rnd, entropy=31, interleave=True):
-    """Ask every earlier query again after every later one: bit-identical W, U, A."""
+def _typed(ans, size, dtype):
+    """Every tensor of an answer has the sample's dtype; W and U have the sample's shape, A one more axis."""
+    W, U, A = ans
+    want = torch.Size(size)
+    ok = W.dtype == dtype and W.shape == want
+    if U is not None:
+        ok = ok and U.dtype == dtype and U.shape == want
+    if A is not None:
+        ok = ok and A.dtype == dtype
+        if len(size) >= 2:                  # (for 0-d / 1-d samples the library treats the axis as a batch axis)
+            ok = ok and A.shape == torch.Size((*size, *size[-1:]))
+    return ok
+
+
+def check_repeat(cfg, queries, size, levy, rnd, entropy=31, interleave=True, dtype=torch.float64):
+    """Ask every earlier query again after every later one: bit-identical W, U, A (in the dtype asked for)."""
     fails = []
-    bm = B.make_real(cfg, size=size, levy=levy, entropy=entropy)
+    bm = B.make_real(cfg, size=size, levy=levy, entropy=entropy, dtype=dtype)
     first = {}
     order = []
     with warnings.catch_warnings():
@@ -220,6 +234,9 @@ def check_repeat(cfg, queries, size, levy, rnd, entropy=31, interleave=True):
         try:
             for k, (a, b) in enumerate(queries):
                 ans = B.call(bm, a, b, cfg, levy)
+                if not _typed(ans, size, dtype):
+                    fails.append(("answer_type", dict(q=[a, b], at=k, want=str(dtype), got=[None if x is None else
+                                                      (str(x.dtype), list(x.shape)) for x in ans])))
                 if (a, b) in first:
                     if not all(_eq(x, y) for x, y in zip(first[(a, b)], ans)):
                         fails.append(("repeat", dict(q=[a, b], at=k, phase="history")))
